@@ -16,12 +16,12 @@ def run(tier, seed):
             workers=workers, xmx="12g", timeout=5400)
     tlc_must_hold(r, "Decoders")
     vlib.require_coverage(r, ["Mutate", "Decode"], "Decoders")
-    c.add_tlc(r, f"adversary plans: 11 entry points x strict/relaxed x 32 mutation kinds x {sites} sites x 3 variants; capture/re-decode "
+    c.add_tlc(r, f"adversary plans: 11 entry points x strict/relaxed x 33 mutation kinds x {sites} sites x 3 variants; capture/re-decode "
                  "table (CapImpliesRed); TypeOk; every run plan terminates (liveness under weak fairness of Decode)")
     cases = r.replay
     write_ndjson(os.path.join(wd, "cases.ndjson"), cases)
     # the allocation meter is per process, so the plans can be spread over several harness processes
-    s = vlib.vh_parallel("replay", "decoders", cases, wd, jobs=8 if quick else 14, extra=["--sites", str(sites)], timeout=5400)
+    s = vlib.vh_parallel("replay", "decoders", cases, wd, jobs=12 if quick else 14, extra=["--sites", str(sites)], timeout=5400)
     if not s["violations"] and (s.get("outcome_value", 0) < 500 or s.get("outcome_error", 0) < 5000 or s.get("capred_lookup_reached", 0) < 4):
         raise vlib.ToolError("vacuous: too few decoded values / refusals / revocation lookups reached")
     c.add_harness(s, "every plan applied to every valid object of the entry point's type (objects built with real keys plus the repository's "
